@@ -21,7 +21,8 @@ Verdict14(ev) ==
     ELSE IF ev.s2 # ev.s1 THEN "prints-differently"
     \* ALLOW: when the re-parsed expression is structurally identical to the original (a Go fact: reflect.DeepEqual),
     \* a different result is not caused by the text form (Expr.Get on several descents depends on map order: C05)
-    ELSE IF ev.eo # ev.er /\ ~ev.same THEN "evaluates-differently"
+    \* and where repeated evaluation of one expression gives several results, one common result is enough
+    ELSE IF ~ev.same /\ ~(\E i \in 1..Len(ev.eos), j \in 1..Len(ev.ers) : ev.eos[i] = ev.ers[j]) THEN "evaluates-differently"
     ELSE IF ev.k = "eq" /\ ev.mo = 2 THEN "panic"
     ELSE IF ev.k = "eq" /\ ((ModelSays(ev) = "T" /\ ev.mo = 0) \/ (ModelSays(ev) = "F" /\ ev.mo = 1)) THEN "model-differs"
     ELSE "ok"
@@ -31,6 +32,7 @@ KeyClass(k) == IF Len(k) = 0 THEN "empty"
                ELSE IF \E i \in 1..Len(k) : k[i] = 39 THEN "quote"
                ELSE IF \E i \in 1..Len(k) : k[i] = 92 THEN "backslash"
                ELSE IF \E i \in 1..Len(k) : k[i] < 32 \/ k[i] = 127 THEN "control"
+               ELSE IF \E i \in 1..Len(k) : k[i] \in {192, 193} \/ k[i] >= 245 THEN "badutf8"     \* bytes that never occur in UTF-8
                ELSE IF \E i \in 1..Len(k) : k[i] >= 128 THEN "nonascii"
                ELSE IF \A i \in 1..Len(k) : Alnum(k[i]) THEN (IF 48 <= k[1] /\ k[1] <= 57 THEN "digits" ELSE "plain")
                ELSE "punct"
@@ -43,8 +45,9 @@ FragName(f) == CASE f.f = "child" -> "child(" \o KeyClass(f.k) \o ")"
                  [] f.f = "slice" -> "slice(" \o ToString(Len(f.s)) \o ")"
                  [] OTHER -> f.f
 RECURSIVE JoinNames(_)
-JoinNames(fr) == IF Len(fr) = 0 THEN "" ELSE " " \o FragName(Head(fr)) \o JoinNames(Tail(fr))
-PathLocus(cs) == (IF cs.root = "" THEN "rel" ELSE cs.root) \o JoinNames(cs.fr)
+JoinNames(fr) == IF Len(fr) = 0 THEN "" ELSE IF Len(fr) = 1 THEN FragName(fr[1]) ELSE FragName(Head(fr)) \o " " \o JoinNames(Tail(fr))
+\* fragments after a leading $ or @ ("rel": the expression has neither)
+PathLocus(cs) == (IF "root" \in DOMAIN cs THEN "" ELSE "rel ") \o JoinNames(cs.fr)
 
 \* the (parent op, child ops) triple of an equation
 OpOf(e) == IF e.op \in {"const", "path"} THEN "leaf" ELSE e.op
